@@ -255,11 +255,11 @@ PROPS["C01"] = {
     "explanation": "Per shape (which optional parts are present, string lengths 0..2, which NodeId encoding) all scalar payloads are symbolic. Asserted: encode succeeds and writes exactly byte_len() bytes; decoding those bytes succeeds, "
                    "stops exactly at byte_len, and yields an equal value (f64 by bit pattern; LocalizedText null == empty); re-encoding the decoded value reproduces the same bytes. NodeId numeric encodings at the boundaries "
                    "0/255/256/65535/65536 and namespaces 0/255/256; DataValue with and without each timestamp/picoseconds pair; empty Variant arrays with and without dimensions (cursor only: their dimensions are a documented normalisation).",
-    "outside": "generated request/response structures; symbolic presence of optional parts in one query (makes the encoded length, hence the stream cursor, symbolic: out of memory) - presence is enumerated by instances instead; strings longer than 2 bytes and non-ASCII; DateTime values other than three concrete instants; nested arrays / arrays of non-Int32",
+    "outside": "generated request/response structures; symbolic presence of optional parts in one query (makes the encoded length, hence the stream cursor, symbolic: out of memory) - presence is enumerated by instances instead; strings longer than 2 bytes and non-ASCII; DateTime values other than three concrete instants; non-empty Variant arrays, Variant String/NodeId/nested Variant and DiagnosticInfo (harnesses c01_x_*: no verdict in 40 min)",
     "assumptions": ["alloc::fmt::format returns an empty String", UTF8_STUB, "paths through regex::Regex::new are cut", "streams::Sink / SrcLong model Write / Read over a 28-byte buffer"],
     "tiers": {
         "quick": {"groups": [{"filters": ["c01_q_"], "timeout": 900, "jobs": 16}], "bounds": "17 shapes; payload scalars: all values; strings <= 2 ASCII bytes; buffer 28 bytes; unwind 30"},
-        "thorough": {"groups": [{"filters": ["c01_q_", "c01_t_"], "timeout": 2400, "jobs": 12}], "bounds": "adds StatusCode, NodeId guid/bytestring, LocalizedText, ExpandedNodeId, ExtensionObject, DiagnosticInfo, more DataValue shapes, Variant String/NodeId/Variant-in-Variant, Int32 arrays of 2 with and without dimensions"},
+        "thorough": {"groups": [{"filters": ["c01_q_", "c01_t_"], "timeout": 2400, "jobs": 12}], "bounds": "adds StatusCode, NodeId guid/bytestring, LocalizedText, ExpandedNodeId without URI, ExtensionObject, more DataValue shapes, empty array with two dimensions"},
     },
 }
 
